@@ -18,7 +18,7 @@ def cases(tier, seed):
     n = 14 if tier == "quick" else 300
     for i in range(n):
         r = common.case_rng(seed, PID, i)
-        F, R = c09.gen_pair(r)
+        F, R = c09.gen_pair(r, classes=gen.CLASSES_C)      # incl. Custom nodes with node-valued attributes
         other = gen.gen_tree(r, rootname="R1", maxdepth=2, md=0.5)
         X = gen.gen_tree(r, rootname="X0", maxdepth=1)
         ap = c09.gen_append(r, F, R, X)
@@ -291,8 +291,9 @@ def known_match(case, fail, finding):
         # does not reach.
         if not fail.get("append_over"):
             return False
-        if fail.get("natural") == "renamed_node_over" and any(kind in ("lost", "unreadable", "scratch", "file_unreadable") for kind, _ in fail["damage"]):
-            # a renamed node is refused BEFORE the old group is parked: nothing can be lost and no scratch group can exist
+        if fail.get("natural") in ("renamed_node_over", "collision_with_body") and any(kind in ("lost", "unreadable", "scratch", "file_unreadable") for kind, _ in fail["damage"]):
+            # a renamed node is refused BEFORE the old group is parked, and a NEW child named like an object of its parent's
+            # body is refused when its group is created (no node is parked at that moment): nothing can be lost and no scratch group can exist
             # (nodes replaced earlier in the same save have their new content: that part is this finding)
             return False
         replaced = [tuple(p) for p in fail.get("replaced_paths", [])]
